@@ -204,12 +204,8 @@ func TestC04Weights(t *testing.T) {
 		}
 		ring := r.VerifRingLen()
 		if n > 1 {
-			if nFixed == 0 {
-				if ring != n {
-					t.Fatalf("equal-weight route: ring has %d slots for %d targets", ring, n)
-				}
-			} else if ring < 10000-n || ring > 10000+n {
-				t.Fatalf("ring has %d slots, want 10000±%d", ring, n)
+			if ring < n || ring > 1<<22 {
+				t.Fatalf("implausible cycle length %d for %d targets", ring, n)
 			}
 			req := &http.Request{Host: "h", URL: &url.URL{Path: "/p/x"}, Header: http.Header{}}
 			cache := route.NewGlobCache(10)
@@ -241,8 +237,8 @@ func TestC04Weights(t *testing.T) {
 					t.Fatalf("zero-weight target %d picked %d times\n%s", i, c1[i], cfg.String())
 				case want[i] > 0 && c1[i] == 0:
 					t.Fatalf("target %d with weight %v starved in a full cycle of %d\n%s", i, want[i], ring, cfg.String())
-				case nFixed == 0 && c1[i] != 1:
-					t.Fatalf("equal-weight route not uniform: target %d picked %d times per cycle", i, c1[i])
+				case nFixed == 0 && c1[i] != c1[0]:
+					t.Fatalf("equal-weight route not uniform: target %d picked %d times per cycle, target 0 %d times", i, c1[i], c1[0])
 				case math.Abs(share-want[i]) > tol:
 					t.Fatalf("target %d: share %v in a cycle of %d, weight %v (tolerance %v)\n%s", i, share, ring, want[i], tol, cfg.String())
 				}
